@@ -16,14 +16,15 @@ done
 python3-vt - <<'PY'
 import json, jsonschema, glob
 sch = json.load(open('/root/.vp/EVIDENCE.schema.json'))
-man = json.load(open('/verif/MANIFEST.json'))
+man = json.load(open('MANIFEST.json'))
 jsonschema.validate(man, json.load(open('/root/.vp/MANIFEST.schema.json')))
 for c in man['checks']:
-    e = json.load(open('/verif/' + c['evidence_file']))
+    e = json.load(open(c['evidence_file'].replace('/verif/', '', 1) if c['evidence_file'].startswith('/verif/') else c['evidence_file']))
     jsonschema.validate(e, sch)
     cov = e['coverage']
     assert cov['discharged'] == cov['obligations'] >= 1, (c['property_id'], cov['discharged'], cov['obligations'])
     assert e['violations'] == 0, c['property_id']
 print('manifest and evidence valid')
 PY
+[ $? -ne 0 ] && fail=1
 exit $fail
